@@ -29,12 +29,6 @@ Lemma sqrt_consts_ok :
 Proof. vm_compute. repeat split. Qed.
 Print Assumptions sqrt_consts_ok.
 
-(* every literal occurrence of the two function bodies, in source order *)
-Lemma sqrt_lits_ok :
-  FfgConsts.lits_Element_Legendre = [0; 0; one; 1; 1]
-  /\ FfgConsts.lits_Element_Sqrt =
-       [TonelliShanks.gold_g_mont; TonelliShanks.gold_e; 0; 1; 0; one; 0; one; 0; 1; 0].
-Proof. vm_compute. repeat split. Qed.
 
 Definition gE : Z := nth 0 FfgConsts.biglits_Element_Sqrt 0.
 
